@@ -80,7 +80,47 @@ TRIAGE_READONLY = {
      "list(set((L1 for L1 in dependency_graph)).difference(set((L1 for L2 in dependency_graph.values() for L1 in L2))))"):
         [(f"{BNDS}.number_instr_needed", "number_of_instructions_to_execute")],
 }
+# (function, parameter): consumers of the topological order whose result is the same for every topological order only while nothing but the
+# per-key min/max table is carried from one visited instruction to the next — a scratch container that is bound before the loop, filled inside
+# it and consulted inside it makes what is done for an instruction depend on which instructions were visited before it.
+TRIAGE_NO_CARRIED_SCRATCH = {
+    (f"{BNDS}.toposort_instr_dependencies",
+     "list(set((L1 for L1 in dependency_graph)).difference(set((L1 for L2 in dependency_graph.values() for L1 in L2))))"):
+        [(f"{BNDS}.update_with_tree_level", "topological_order")],
+}
 PER_KEY_UPDATERS = {"update_current_index"}
+
+
+def _carried_scratch(ctx, qual, param):
+    """(name, node) of a scratch set / list carried across the iterations of the loop over `param` in function `qual`, or None."""
+    from ..core.absint import MUTATORS
+    g_ = ctx.func(qual)
+    if param not in g_.params:
+        raise AnalysisError(f"{qual} has no parameter {param} any more (premise of a triaged set-order site)")
+    loops = [l for l in own_nodes(g_.node) if isinstance(l, ast.For) and any(is_name(x, param) for x in ast.walk(l.iter))]
+    if not loops:
+        raise AnalysisError(f"{qual}: no loop over {param} any more (premise of a triaged set-order site)")
+    for loop in loops:
+        inner = {id(x) for st in loop.body for x in ast.walk(st)}
+        outside = {}
+        for n in own_nodes(g_.node):
+            if isinstance(n, ast.Assign) and id(n) not in inner:
+                for t in n.targets:
+                    v = n.value
+                    if isinstance(t, ast.Name) and (isinstance(v, (ast.List, ast.Set, ast.Dict)) and not (getattr(v, "elts", None) or getattr(v, "keys", None))
+                                                    or (isinstance(v, ast.Call) and call_name(v) in ("set", "list", "dict") and not v.args)):
+                        outside[t.id] = n
+        rebound_inside = {t.id for st in loop.body for n in ast.walk(st) if isinstance(n, ast.Assign) for t in n.targets if isinstance(t, ast.Name)}
+        for name, bind in sorted(outside.items()):
+            if name in rebound_inside:
+                continue
+            mut = [x for st in loop.body for x in ast.walk(st) if isinstance(x, ast.Call) and isinstance(x.func, ast.Attribute) and is_name(x.func.value, name)
+                   and x.func.attr in MUTATORS]
+            reads = [x for st in loop.body for x in ast.walk(st) if isinstance(x, ast.Name) and x.id == name and isinstance(x.ctx, ast.Load)
+                     and not (isinstance(getattr(x, "_parent", None), ast.Attribute) and x._parent.attr in MUTATORS)]
+            if mut and reads:
+                return name, mut[0]
+    return None
 # loops triaged because their body is one slot-per-element update  <table>[<loop var>] op= ...
 SLOT_PER_ELEMENT = {("greedy.block_generation.SMSgreedy.target", "for L1 in L2")}
 
@@ -180,6 +220,15 @@ def rule_a(ctx, out):
                 # the one order-observing site of this function, however it is written (named locals, comprehension or constructor)
                 tri = TRIAGED_SINGLE_SITE[f.qual]
                 key = next(k_ for k_ in TRIAGED if k_[0] == f.qual)
+            if tri is None and f.cls is None:
+                # the triaged expression moved, unchanged, into a helper that only the triaged function calls: the triage (and its premises)
+                # moves with it
+                callers = {g_.qual for g_ in ctx.p.functions.values() if g_ is not f and any(t_ is f for c_ in calls_in(g_.node) for t_ in ctx.r.resolve_call(g_, c_))}
+                moved = [k_ for k_ in TRIAGED if k_[1] == key[1] and callers and callers <= {k_[0]}
+                         and len(f.node.body) <= 3 and isinstance(f.node.body[-1], ast.Return) and any(x is s["node"] for x in ast.walk(f.node.body[-1]))]
+                if moved:
+                    key = moved[0]
+                    tri = TRIAGED[key]
             if tri is None:
                 out.bad(f"set-order:{f.qual.split('.', 1)[-1]}:{s['consumer'][:70]}",
                         f"{s['consumer']} in {f.qual} observes the iteration order of a set ({s['why']}); the order depends on the string "
@@ -210,6 +259,18 @@ def rule_a(ctx, out):
                             written = (g_, x)
                         if isinstance(x, ast.Call) and isinstance(x.func, ast.Attribute) and is_name(x.func.value, param) and x.func.attr in MUTATORS:
                             written = (g_, x)
+                carried = None
+                for qual, param in TRIAGE_NO_CARRIED_SCRATCH.get(key, []):
+                    r_ = _carried_scratch(ctx, qual, param)
+                    if r_:
+                        carried = (qual, param) + r_
+                if carried and not written:
+                    out.bad(f"set-order:{f.qual.split('.', 1)[-1]}:{carried[0].rsplit('.', 1)[-1]}:carried-scratch:{carried[2]}",
+                            f"{s['consumer'][:80]} in {f.qual} yields the maximal instructions in set order, so the topological order handed to "
+                            f"{carried[0].rsplit('.', 1)[-1]} depends on the string hash seed; that is harmless only while each instruction is treated on its own. "
+                            f"`{carried[2]}` is created before the loop over `{carried[1]}`, filled (`{short(carried[3], 40)}`) and consulted inside it: what is done "
+                            f"for an instruction depends on the instructions visited before it, and the bounds depend on the seed", where(ctx.func(carried[0]), carried[3]), rec)
+                    continue
                 if written:
                     out.bad(f"set-order:{f.qual.split('.', 1)[-1]}:{written[0].name}-writes-shared-table", f"{s['consumer'][:80]} in {f.qual} yields the maximal "
                             f"instructions in set order; that is harmless only while the table of per-instruction values is written once per instruction by the "
